@@ -12,6 +12,12 @@ PURE = "executions only; CPython 3.12 of /venv; no external tool involved"
 
 # id: (level, technique, level text, note, design ref)
 CHECKS = {
+    "C01": ("exploration", "mutation workload on signed documents + identity-provenance oracle on the API boundary + structural oracle over the tool event log",
+            "Delivers every mutant of the operator catalogue (edits, comments, signature/reference/ID games, XSW wrapping; plain and "
+            "re-encrypted) of validly signed responses to every signature-requiring SP setting. An accepted mutant must report exactly the "
+            "signed identity, and every successful verification the tool performed for it must have vouched for an element that directly "
+            "carries exactly one enveloped signature referencing its own ID.",
+            TRUST, "3/C01"),
     "C02": ("exploration", "runtime oracle on the API boundary + offline check of the tool event log, exhaustive finite table",
             "Runs the whole documented option x signed-layout x plain/encrypted x corruption table through the real "
             "Saml2Client and compares accept/reject with an independent truth table in both directions; the driver's "
